@@ -982,7 +982,7 @@ func cName(name string, pkgPrefix string) string {
 			underscore = true
 		}
 	}
-	if underscore {
+	if underscore && (len(s) > 0) {
 		s = s[:len(s)-1]
 	}
 	return string(s)
@@ -1029,8 +1029,12 @@ func (g *gen) addStatus(qid t.QID, msg string, public bool) error {
 	} else if msg[0] == '#' {
 		category = "error__"
 	}
+	name := cName(msg, "")
+	if name == "" {
+		return fmt.Errorf("bad status message %q: no letters or digits to make a C name from", msg)
+	}
 	z := status{
-		cName:       g.packagePrefix(qid) + category + cName(msg, ""),
+		cName:       g.packagePrefix(qid) + category + name,
 		msg:         msg,
 		fromThisPkg: qid[0] == 0,
 		public:      public,
